@@ -7,6 +7,12 @@ import shutil
 from .common import SPEC, MachineryError, run_tlc, write_cfg, run_parallel, tla_str
 
 PIPE = os.path.join(SPEC, "pipe")
+
+
+def max_par(n):
+    """Cap on concurrent processes / TLC workers (VERIF_MAX_PAR; default: what the caller asks for)."""
+    cap = int(os.environ.get("VERIF_MAX_PAR", "0") or 0)
+    return max(1, min(n, cap)) if cap else n
 NPASS = 12
 PRELUDE = "<prelude>"
 
@@ -46,7 +52,8 @@ def run_mc(chk, sc, *, choice_set, max_compiles, part, coverage=False, workers=N
     d = _spec_copy(sc, part)
     cfg = os.path.join(d, "mc.cfg")
     write_cfg(cfg, constants=mc_constants("doc", choice_set, max_compiles), invariants=MC_INVARIANTS, view="MCView")
-    res = run_tlc(os.path.join(d, "PipelineMC.tla"), cfg, workers=workers, coverage=coverage, timeout=timeout, heap="6g")
+    from .common import NCPU
+    res = run_tlc(os.path.join(d, "PipelineMC.tla"), cfg, workers=max_par(workers or NCPU), coverage=coverage, timeout=timeout, heap="6g")
     chk.add_tlc(res, part=part)
     if not res.clean or not res.completed:
         chk.violation("design:%s" % ",".join(res.invariant_violated or ["tlc"]),
@@ -62,10 +69,10 @@ def run_variants(chk, sc, names, *, only_invariant=None):
         d = _spec_copy(sc, "variant-" + v)
         cfg = os.path.join(d, "mc.cfg")
         write_cfg(cfg, constants=mc_constants(v, cs, mc), invariants=MC_INVARIANTS, view="MCView")
-        res = run_tlc(os.path.join(d, "PipelineMC.tla"), cfg, workers=4, timeout=900, heap="3g")
+        res = run_tlc(os.path.join(d, "PipelineMC.tla"), cfg, workers=max_par(4), timeout=900, heap="3g")
         return v, inv, res
 
-    results = run_parallel([(lambda v=v: one(v)) for v in names], nproc=4)
+    results = run_parallel([(lambda v=v: one(v)) for v in names], nproc=max_par(4) // 2 or 1)
     caught = {}
     for v, inv, res in results:
         chk.add_tlc(res, part="mc-variant-" + v)
@@ -77,11 +84,11 @@ def run_variants(chk, sc, names, *, only_invariant=None):
     return caught
 
 
-def run_gen(chk, sc, *, choice_set, max_compiles, procs, seeds, part):
+def run_gen(chk, sc, *, choice_set, max_compiles, procs, seeds, part, constraints=()):
     d = _spec_copy(sc, part)
     cfg = os.path.join(d, "gen.cfg")
     write_cfg(cfg, constants=mc_constants("doc", choice_set, max_compiles, gen=True, procs=procs, seeds=seeds),
-              invariants=("GenPrint",))
+              invariants=("GenPrint",), constraints=constraints)
     res = run_tlc(os.path.join(d, "PipelineMC.tla"), cfg, workers=1, timeout=1800, heap="4g")
     chk.add_tlc(res, part=part)
     if not res.clean:
@@ -119,7 +126,7 @@ def validate_streams(chk, sc, shard_files, part, timeout=1800):
         return run_tlc(os.path.join(d, "PipelineTrace.tla"), cfg, workers=1, env={"TRACE_FILE": path}, timeout=timeout,
                        heap="3g")
 
-    results = run_parallel([(lambda i=i, p=p: one(i, p)) for i, p in enumerate(shard_files)], nproc=min(8, len(shard_files) or 1))
+    results = run_parallel([(lambda i=i, p=p: one(i, p)) for i, p in enumerate(shard_files)], nproc=max_par(min(8, len(shard_files) or 1)))
     verdicts, summaries = [], []
     for res in results:
         chk.add_tlc(res, part=part)
@@ -157,8 +164,10 @@ def shard_streams(sc, streams, nshards, name):
     return [p for p, z in zip(paths, sizes) if z > 0], nev
 
 
-def key_of(clause, site):
+def key_of(clause, site, input_key=""):
     """Stable violation key: what fails (clause) and where (call site / stage / entry point)."""
+    if clause.startswith("Pure."):
+        return "%s@%s" % (clause, input_key)
     if clause == "Total.exception":
         return "exception:%s" % site
     if clause.startswith("Render."):
